@@ -144,7 +144,7 @@ func runC01(env *Env, s Scenario) {
 	dev := c01Device(sc)
 	tr := simnet.New(env.K, dev, sc.Net, simnet.NoFaults())
 	rd := Micro(sc.ReadDelayUS)
-	timeout := oddTimeout(120 * time.Second)
+	timeout := oddTimeout(rd * 20000)
 	d, err := generic.NewDriver("sim",
 		options.WithCustomTransport(tr),
 		options.WithAuthBypass(),
